@@ -143,7 +143,7 @@ func confirms(v *interp.Violation, r nativeResult) bool {
 	case "deadlock", "hang":
 		return r.Outcome == "timeout"
 	}
-	if strings.HasPrefix(v.Label, "lock: ") {
+	if strings.HasPrefix(v.Label, "lock: ") || strings.HasPrefix(v.Label, "race: ") {
 		return r.Outcome == "race" || r.Outcome == "crash"
 	}
 	if r.Outcome == "fail" {
@@ -292,6 +292,11 @@ func cmdCheck(args []string) int {
 					m = m[:90]
 				}
 				gk = v.Label + "|" + m
+			}
+			if strings.HasPrefix(v.Label, "race: ") {
+				// one native confirmation (a stress run under the Go race detector) per
+				// harness: the labels differ in the pair of code locations only
+				gk = "race"
 			}
 			g := groups[gk]
 			if g == nil {
